@@ -498,7 +498,7 @@ func init() {
 			cfg.Origins = i%5 == 0
 			cfg.Calls = false
 			cfg.WorldProb = 80
-			cfg.WorldSub = i%16 == 2 // (the only residue class of C01 that is generated freely is 2 mod 8)
+			cfg.WorldSub = i%16 == 2 || i%32 == 27
 			cfg.MaxStmts = 5
 			switch i % 8 {
 			case 3:
@@ -520,17 +520,24 @@ func init() {
 				cfg.Directed = "effectsCarry"
 			}
 			cfg.SelfLead = i%8 == 2
-			if i%16 == 10 {
-				cfg.SelfLead = false
-				cfg.Directed = "worldLookalike"
-			}
+			// class 2 mod 8 (300 of 2400): three directed templates, look-alikes of @world, and free generation
+			// (26, 34, 58 mod 64; with more negative caps than elsewhere); half of class 3 is free as well
 			switch i % 64 {
+			case 10, 42:
+				cfg.SelfLead, cfg.Directed = false, "worldLookalike"
 			case 18:
 				cfg.SelfLead, cfg.Directed = false, "originOtherAsset"
-			case 34, 2:
+			case 2:
 				cfg.SelfLead, cfg.Directed = false, "twoAssets"
 			case 50:
 				cfg.SelfLead, cfg.Directed = false, "zeroTwins"
+			case 26, 34, 58:
+				cfg.NegCaps = 300
+			}
+			if i%16 == 11 {
+				cfg.Directed = ""
+				cfg.NegCaps = 200
+				cfg.SelfLead = i%32 == 11
 			}
 		}, func(s *Scenario, r *Rand, i int) {
 			if i%64 == 2 {
